@@ -17,7 +17,10 @@ RULE = ("Hypothesis-generated template-conformant messages: template name (sampl
         "of the 20 variable types (boundary-biased ints, all finite/inf floats at wire width incl. -0.0, arbitrary and "
         "text-shaped bytes incl. NULs/non-UTF8, str values), flags incl. undefined bits, packet id, 0..255 acks, 0..255 "
         "extra bytes, trailing-block omission; profile `fill`: random subsets of variables left unset in default-filled "
-        "blocks; each decoded-but-unparsed message additionally gets other extra header bytes and is sent on.  "
+        "blocks; each decoded-but-unparsed message additionally gets other extra header bytes and is sent on; `fault` shards: "
+        "the long-lived serializer is first handed a non-conformant variant of the case that it must refuse part-way through "
+        "the body (unexpected block, unset variable in a block not marked for filling, Multiple-count mismatch, out-of-range "
+        "integer, block after a missing one) and then the conformant case, which must encode exactly as on a fresh history.  "
         "Non-trivial = at least one block instance with a variable; distinct by full case content.")
 ASSUMPTIONS = [
     "independent reference encoder in /verif (struct formats per variable type written from the template format) defines the expected datagram",
@@ -29,13 +32,16 @@ _TYPE_FLOORS = {"type:%s" % t.name: 60 for t in {v.type for tm in gt.TEMPLATES.v
 FLOORS = {"quick": dict(_TYPE_FLOORS, **{"zerocoded": 300, "plain": 300, "acks": 300, "extra": 300, "block_kind_0": 500,
                                           "block_kind_1": 30, "block_kind_2": 300, "var2_len>255": 20, "fill_cases": 1500,
                                           "varblock_count_0": 100, "trailing_blocks_omitted": 50, "unset:MVT_FIXED": 10,
-                                          "unset:MVT_VARIABLE": 100, "var_str": 100, "neg_zero": 20}),
+                                          "unset:MVT_VARIABLE": 100, "var_str": 100, "neg_zero": 20,
+                                          "after_fault:unexpected_block:refused": 150, "after_fault:unset_nofill:refused": 100,
+                                          "after_fault:bad_value:refused": 20,
+                                          "after_fault:block_after_missing:refused": 12}),
           "thorough": dict(_TYPE_FLOORS, **{"templates_seen": 481, "unset:MVT_FIXED": 40})}
 MANIFEST = {
     "text": "Generated search over the message template: each case is encoded, compared byte-for-byte with an independent "
             "reference encoder (so a consistent error in both codec directions is still seen), decoded with deferred "
             "parsing on and off, compared value-by-value at the template's type and width, and re-encoded to the same "
-            "datagram; thorough tier visits every template.",
+            "datagram; a slice of the cases is encoded right after the same serializer refused a non-conformant message (two-step history); thorough tier visits every template.",
     "note": "Sampling, not exhaustive: a defect confined to one template variable or one magic length is found with the "
             "probability the class counters in the evidence imply. Trusts the 60-line reference encoder.",
     "technique": "Hypothesis template-driven generation; differential vs reference encoder + decode/value + wire-fixpoint oracles",
@@ -53,8 +59,67 @@ def _settings(deferred):
 DESERS = {True: UDPMessageDeserializer(settings=_settings(True)), False: UDPMessageDeserializer(settings=_settings(False))}
 
 
+FAULTS = ("unexpected_block", "unset_nofill", "multiple_mismatch", "bad_value", "block_after_missing")
+
+
+def _faulty(case, kind):
+    """the conformant message of `case`, made non-conformant as late in its body as possible (so that the encoder has
+    already written something when it finds out); None when this kind of fault does not apply to the case"""
+    msg = gt.build(case)
+    tmpl = gt.TEMPLATES[case["name"]]
+    if kind == "unexpected_block":
+        msg.create_block_list("NoSuchBlockInTemplate")
+        return msg
+    if kind == "unset_nofill":
+        for bname, insts in reversed(case["blocks"]):
+            if insts and tmpl.get_block(bname).variables:
+                blk = msg.blocks[bname][-1]
+                blk.fill_missing = False
+                blk.vars.pop(tmpl.get_block(bname).variables[-1].name, None)
+                return msg
+        return None
+    if kind == "multiple_mismatch":
+        for bname, insts in reversed(case["blocks"]):
+            if tmpl.get_block(bname).block_type == MsgBlockType.MBT_MULTIPLE:
+                msg.blocks[bname].append(msg.blocks[bname][-1])
+                return msg
+        return None
+    if kind == "bad_value":
+        for bname, insts in reversed(case["blocks"]):
+            for var in reversed(tmpl.get_block(bname).variables):
+                if insts and var.type.name in ("MVT_U8", "MVT_U16", "MVT_U32", "MVT_S8", "MVT_S16", "MVT_S32"):
+                    msg.blocks[bname][-1].fill_missing = False
+                    msg.blocks[bname][-1].vars[var.name] = 1 << 40
+                    return msg
+        return None
+    if kind == "block_after_missing":
+        present = [b for b, _ in case["blocks"]]
+        if len(present) >= 3:
+            del msg.blocks[present[-2]]
+            return msg
+        return None
+    return None
+
+
+def fault_then(case):
+    """history law: the long-lived serializer is first given a message it must refuse, then the conformant one"""
+    try:
+        bad = _faulty(case, case["fault"])
+    except Exception:
+        bad = None
+    if bad is None:
+        return "n/a"
+    try:
+        SER.serialize(bad)
+    except Exception:
+        return "refused"
+    return "accepted"
+
+
 def laws(case):
     out = []
+    if case.get("fault"):
+        fault_then(case)
     try:
         msg = gt.build(case)
         dg = bytes(SER.serialize(msg))
@@ -133,6 +198,9 @@ def body_for(ctx, profile):
         cls = gt.case_classes(case)
         if profile == "fill":
             cls.append("fill_cases")
+        if case.get("fault"):
+            # performed here for the class counter; laws() performs it again just before encoding (idempotent for the law)
+            cls.append("after_fault:%s:%s" % (case["fault"], fault_then(case)))
         ctx.case(case, nontrivial=gt.is_nontrivial(case), classes=cls + ["tmpl:" + case["name"]])
         return laws(case)
     return body
@@ -147,6 +215,7 @@ def shards(tier):
         for i in range(0, len(names), per):
             sh.append({"kind": "gen", "names": names[i:i + per], "profile": "full", "n": per * 120})
             sh.append({"kind": "gen", "names": names[i:i + per], "profile": "fill", "n": per * 60})
+            sh.append({"kind": "gen", "names": names[i:i + per], "profile": "full", "n": per * 30, "fault": True})
         for i in range(0, len(vnames), 13):
             sh.append({"kind": "counts", "names": vnames[i:i + 13]})
     else:
@@ -154,6 +223,8 @@ def shards(tier):
             sh.append({"kind": "gen", "names": None, "profile": "full", "n": 1300})
         for i in range(4):
             sh.append({"kind": "gen", "names": None, "profile": "fill", "n": 1300})
+        for i in range(2):
+            sh.append({"kind": "gen", "names": None, "profile": "full", "n": 1000, "fault": True})
         # a rotating slice of the Variable-block templates gets the full 0..255 count sweep
         for i in range(8):
             sh.append({"kind": "counts", "names": vnames[i::41]})
@@ -187,6 +258,8 @@ def run_shard(ctx, shard):
         _counts(ctx, shard["names"])
         return
     strat = gt.message_case(names=shard["names"], profile=shard["profile"])
+    if shard.get("fault"):
+        strat = st.tuples(strat, st.sampled_from(FAULTS)).map(lambda t: dict(t[0], fault=t[1]))
     hyp_run(ctx, strat, body_for(ctx, shard["profile"]), shard["n"])
     # fold per-template / per-type counters into two summary classes
 
